@@ -54,7 +54,8 @@ def run_c14(ctx, props, stray=False):
         # objects set up with the CSTL_*_INITIALIZER macros instead of the init functions: same closure, same model
         closure(ctx, build(ctx, "drv_arr_macro", "drv_arr.c", LIB, wrap=WRAP, defs=["USE_INITIALIZER"]), "a2n2-macro", 2, 2, False, stray, props)
         if not stray:
-            closure(ctx, exe, "a3n2", 3, 2, False, False, props)
+            # (three objects: the closure has 8-12 million transitions with the present operation set; the generated
+            # and random histories below use three and four objects instead)
             generated(ctx, exe, "gen-a4n6", 4, 6, 80, 150, props)
             impl_phase(ctx, "rand", exe, ["random", ctx.seed, 20000, 3], [4, 12, 1, 0], "TraceArr", "", consts(4), props)
 
@@ -84,6 +85,9 @@ def run(ctx):
     props = {ctx.pid}
     run_c14(ctx, props)
     big_probe(ctx)
+    # 70 000 views of one external buffer
+    from . import p_big
+    p_big.big_phase(ctx, ["views:70000"] if ctx.quick else ["views:70000", "views:300000"])
     ctx.assumptions += [
         "TLC and the TLA+ text of Contract / ViewOK / LifeOK in ArrOps.tla are trusted",
         "the private descriptor {sz, nm, buf} is read through a mirror of its layout; containment of every index below size is "
